@@ -171,6 +171,10 @@ def r14a(ck, prog):
                              "the residue letter is used as %s, not only as an index into the alphabet table" % bad[0].up(casts=True)[0].text()[:60],
                              prog.config)
                 use = "other"
+        if use is None and q is not None and q.k == "CallExpr" and q.callee:
+            H_ = prog.fn(prog.resolve(q.callee, T.file), required=False)
+            if H_ is not None and H_.body is not None and H_.static and H_.file == T.file:
+                raise AnalysisBroken("R14a: %s hands the residue letter to its helper %s; how the helper uses it is not decided" % (T.name, H_.name))
         ck.inst("R14a", where, "%s reads a letter: %s" % (T.name, use), prog.config)
         if use is None:
             ck.violation("R14a", "R14a/%s/letter-use" % T.name, where,
